@@ -52,6 +52,11 @@ def as_expr(v):
 
 
 def expr_arith(ip, opn, a, b):
+    if opn == "Pow" and isinstance(a, Struct) and a.cls == "Expr" and \
+            (isinstance(b, int) or (isinstance(b, Sym) and z3.is_int(b.t))):
+        v, n = a.f["val"], term(b) if not isinstance(b, int) else z3.IntVal(b)
+        pow_axioms(ip.vc, v, n)
+        return mk_expr(POW(v, n), False)
     if opn == "neg":
         a = as_expr(a)
         return mk_expr(-a.f["val"], a.f["zero"])
@@ -77,6 +82,19 @@ def expr_arith(ip, opn, a, b):
         # take the value 0); z3's total division
         return mk_expr(va / vb, a.f["zero"])
     raise Unsupported(f"operator {opn} on abstract expressions")
+
+
+POW = z3.Function("real_power", z3.RealSort(), z3.IntSort(), z3.RealSort())
+
+
+def pow_axioms(vc, v, n):
+    """definitional unfolding of POW around the exponent n"""
+    vc.assume(POW(v, 0) == 1)
+    vc.assume(POW(v, 1) == v)
+    vc.assume(z3.Implies(n >= 0, POW(v, n + 1) == POW(v, n) * v))
+    vc.assume(z3.Implies(n >= 1, POW(v, n) == POW(v, n - 1) * v))
+    # powers of one (induction on the exponent)
+    vc.assume(z3.Implies(v == 1, z3.And(POW(v, n) == 1, POW(v, n + 1) == 1, POW(v, n - 1) == 1)))
 
 
 def expr_is(ip, a, b):
